@@ -40,6 +40,9 @@ var stdMaps = []mp{
 	{0x600000, 0x601000, 0x1000, "/bin/main.data", false},
 	{0x7f0000100000, 0x7f0000200000, 0, "/lib/liba.so", true},
 	{0x7f0000400000, 0x7f0000500000, 0x2000, "/lib/libb.so.1", true},
+	// a small object right below libb, inside the range [start-offset, start) that libb's file
+	// offset spans: its addresses are its own, whatever the listing order
+	{0x7f00003ff000, 0x7f0000400000, 0, "/lib/libtiny.so", true},
 }
 
 func pickAddr(r *rand.Rand, withMaps bool) uint64 {
